@@ -210,6 +210,29 @@ def run(ctx):
             info = dict(info1, kind=kind + "2", curved=True)
         if kind == "line" and cat not in ("h1", "c1"):
             continue
+        if kind == "tri" and type(m).__name__ == "MeshTri1" and m is m0 and rng.random() < 0.3:
+            # the same cells handed to the default constructor with another local vertex order and another
+            # integer dtype (unsigned ones included, as mesh generators and file readers produce them)
+            dt = rng.choice([np.uint32, np.uint64, np.int64, np.uint16])
+            t2 = meshes.local_reorder(rng, "tri", m.t.astype(np.int64))
+            m = type(m)(m.p.copy(), np.ascontiguousarray(t2).astype(dt))
+            info = dict(info, **{"connectivity-dtype": np.dtype(dt).name, "local-reorder": True})
+            ctx.count("connectivity-dtype:" + np.dtype(dt).name)
+        if elements.family(e) == "global" and m.t.shape[0] == m.elem.refdom.nnodes and rng.random() < 0.5:
+            # ONE element object used first on a mesh and then on another mesh over the SAME vertex array with the
+            # same number of cells (cells in another order, vertices of the cells in another order)
+            try:
+                Basis(m, e, intorder=1)
+                perm = list(range(m.nelements))
+                rng.shuffle(perm)
+                t2 = m.t[:, perm]
+                if kind in ("tri", "tet"):
+                    t2 = meshes.local_reorder(rng, kind, t2.astype(np.int64)).astype(np.int32)
+                m = type(m)(m.p, np.ascontiguousarray(t2))
+                info = dict(info, **{"element-object-reused-on-twin": True})
+                ctx.count("element-object-reused-on-twin")
+            except Exception:
+                pass
         descr = {"mesh": meshes.mesh_descr(m), "info": info, "element": name, "claim": cat}
         ctx.case({"t": m.t.tolist(), "p": m.p.tolist(), "element": name}, nontrivial=True,
                  sample={"info": info, "element": name, "claim": cat} if ctx.evaluations < 3 else None)
